@@ -207,7 +207,11 @@ def _add_batch(inst, batch, via):
     elif via == "order_array":
         rows = [[c[0] for c in o] for o, m in batch for _ in range(m)]
         if rows:
-            inst.append_order_array(np.array(rows, dtype=object))
+            # the documented input is a 2D numpy array: an int64 one where the ids fit (its rows hold numpy
+            # integers, equal to and hashing like the Python ints), an object array otherwise
+            small = all(0 <= a < 2 ** 62 for r in rows for a in r)
+            use64 = small and _stable(rows) % 2 == 0
+            inst.append_order_array(np.array(rows, dtype=np.int64 if use64 else object))
     else:
         raise ValueError(via)
 
